@@ -429,6 +429,11 @@ Definition convert_package (bd : bundle) (pkg : str) : outcome (list dfile) :=
   | fs => cv_files (pkg_exports camel bd) fs
   end.
 
+(* every symbol the files linked for a package define; the sub-package files carry their own
+   package name (<pkg>.service, <pkg>.topic) *)
+Definition package_symbols (bd : bundle) (pkg : str) (fs : list dfile) : list str :=
+  pkg_pfile_symbols bd pkg ++ flat_map file_symbols fs.
+
 (* The linker also links every file the package imports, transitively (linker.go
    loadDependencies); files generated from .j5s sources of other local packages are converted
    (with their whole package, as loadPackage does) and linked the same way.  Every unit of
@@ -462,14 +467,19 @@ Fixpoint link_closure (fuel : nat) (bd : bundle) (todo done : list str) : outcom
           obind (convert_package bd (j5s_pkg j)) (fun fs =>
             match find (fun f => str_eqb (fl_path f) p) fs with
             | None => Err "file not produced"
-            | Some f => obind (link_file f) (fun _ => link_closure fu bd (fl_deps f ++ rest) (p :: done))
+            | Some f =>
+                if nodup_str (file_symbols f) then
+                  obind (link_file f) (fun _ => link_closure fu bd (fl_deps f ++ rest) (p :: done))
+                else Err "symbol already defined"
             end)
       end
   end.
 
-(* PackageSet.CompilePackage: convert, then link (which resolves the relative type names) *)
+(* PackageSet.CompilePackage: convert, then link: the linker's symbol table rejects a symbol
+   defined twice among the files of the package; type names are qualified *)
 Definition compile_package (bd : bundle) (pkg : str) : outcome (list dfile) :=
   obind (convert_package bd pkg) (fun fs =>
+  if negb (nodup_str (package_symbols bd pkg fs)) then Err "symbol already defined" else
   obind (link_files fs) (fun linked =>
   obind (link_closure (S (length bd)) bd (flat_map fl_deps fs) (map fl_path fs)) (fun _ =>
     Ok linked))).
